@@ -243,6 +243,9 @@ func Run(seed int64, k int, quick bool, res *l2.Result) {
 		// A call is still blocked inside the client: do not touch it further.
 		return
 	}
+	if plan.Lag > 0 && !s.lagPhase() {
+		return
+	}
 	if !s.stopAndCheckDB("end") {
 		return
 	}
@@ -404,6 +407,90 @@ func (s *state) runRound(idx int, rd Round) (ok, baselineFailed bool) {
 		}
 	}
 	return true, baselineFailed
+}
+
+// lagPhase: the chain grows by plan.Lag blocks; the peers serve their headers
+// but withhold their filter headers, so the client's block-header tip is above
+// its filter-header tip. Asked for the filter of such a block the client has
+// no committed header to verify anything against: the call must fail, and
+// nothing for those blocks may be cached or persisted (the peers push the true
+// filters of the new blocks along with their answers).
+func (s *state) lagPhase() bool {
+	w, d, res := s.w, s.d, s.res
+	ext := w.G.Extend(s.tip, s.plan.Lag, chaingen.PaceNormal)
+	d.SetLag(ext)
+	for _, p := range w.Peers {
+		p.View.SetTip(ext[len(ext)-1])
+	}
+	for _, p := range w.Peers {
+		if p.Conn() != nil && !p.Conn().Dead() {
+			p.AnnounceHeaders(ext...)
+		}
+	}
+	want := uint32(s.tip.Height) + uint32(s.plan.Lag)
+	if !l2.WaitFor(20*time.Second, func() bool {
+		_, h, err := w.Svc.BlockHeaders.ChainTip()
+		return err == nil && h == want
+	}) {
+		res.Count("lag_phase_skipped(headers_not_adopted)", 1)
+		return true
+	}
+	if _, fh, err := w.Svc.RegFilterHeaders.ChainTip(); err != nil || fh != uint32(s.tip.Height) {
+		res.Count("lag_phase_skipped(filter_tip_moved)", 1)
+		return true
+	}
+	res.Count("lag_phases", 1)
+	specs := make([]Spec, s.plan.NPeers)
+	for i := range specs {
+		specs[i] = Spec{Kind: KLagPush}
+	}
+	for i, c := range s.plan.LagCalls {
+		d.BeginRound(1000+i, specs, map[int32]bool{})
+		node := ext[int(c.Height)-s.plan.ChainLen-1]
+		type out struct {
+			f   *gcs.Filter
+			err error
+		}
+		ch := make(chan out, 1)
+		t0 := time.Now()
+		go func() {
+			f, err := w.Svc.GetCFilter(node.Hash, wire.GCSFilterRegular, callOpts(c)...)
+			ch <- out{f, err}
+		}()
+		var o out
+		select {
+		case o = <-ch:
+		case <-time.After(180 * time.Second):
+			res.Inconcl("GetCFilter did not return within 180s (watchdog, lag phase)")
+			return false
+		}
+		res.Count("calls", 1)
+		labels, _, reqs := d.RoundServed()
+		mut := "none-served"
+		if len(labels) > 0 {
+			mut = strings.Join(labels, "+")
+		}
+		outcome := "err-no-committed-header"
+		if o.err == nil {
+			outcome = "ok-UNVERIFIABLE"
+			res.Count("successes", 1)
+			s.violate(evid.Sig("c05/returned-above-committed-filter-tip", mut, capClass(c)),
+				fmt.Sprintf("GetCFilter returned (filter nil=%v, nil error) for a block %d above the committed filter-header tip %d: there is no committed header it could have been verified against",
+					o.f == nil, int(c.Height)-s.plan.ChainLen, s.tip.Height),
+				map[string]any{"call": c, "lag": s.plan.Lag, "requests_answered": reqs})
+		} else {
+			res.Count("errors", 1)
+			res.Count("errors_above_filter_tip(required)", 1)
+		}
+		res.Mark(fmt.Sprintf("mut=%s pos=outside batch=%s boundary=%s persist=%v conc=false outcome=%s",
+			mut, capClass(c), c.Boundary, s.plan.Persist, outcome))
+		s.calls = append(s.calls, fmt.Sprintf("lag%d block=tip+%d %s retries=%d [%s] -> %s (%.1fs)", s.plan.Lag,
+			int(c.Height)-s.plan.ChainLen, capClass(c), c.Retries, mut, outcome, time.Since(t0).Seconds()))
+	}
+	// New blocks are not chain blocks for the director: a cache entry keyed by
+	// one of them is reported as foreign (it cannot have been verified).
+	s.checkCache("after-lag-phase", Round{Pattern: "lag", Muts: specs})
+	return true
 }
 
 // checkCache verifies every entry of the filter cache (oracle 2, memory).
